@@ -9,12 +9,21 @@ PID = 'C02'
 Q = ['w', 'x', 'y', 'z']
 RR = ['r00', 'r01', 'r02', 'r10', 'r11', 'r12', 'r20', 'r21', 'r22']
 CLOSED = ('chiaverini', 'hughes', 'sarabandi')          # the closed-form trio: property only up to pi - 1e-6
-CHOICES = [('shepperd', {}), ('chiaverini', {}), ('hughes', {}), ('sarabandi', {}),
+CHOICES = [('default', {}), ('shepperd', {}), ('chiaverini', {}), ('hughes', {}), ('sarabandi', {}),
            ('itzhack', {'version': 1}), ('itzhack', {'version': 2}), ('itzhack', {'version': 3})]
 # the methods' options: Sarabandi's threshold (docstring: floats in (-3, 3); the code is exact for every value below 3 —
 # theorem C02_closed_form_trio_inverts — and divides 0/0 at the identity from 3.0 on), Bar-Itzhack's version
 SARA_THRESHOLDS = (-2.0, -0.5, 0.0, 0.25, 0.5, 0.9, 1.0, 2.5)
 OPT_CHOICES = [('sarabandi', {'threshold': t}) for t in SARA_THRESHOLDS]
+# 'default' = the dispatcher called WITHOUT a method argument (must be Shepperd on all three routes: the property demands that the
+# default inverts everywhere); spellings the dispatchers accept through method.lower() must behave as the lower-case name
+CASE_CHOICES = [('Shepperd', {}), ('HUGHES', {}), ('Chiaverini', {}), ('SaraBandi', {'threshold': 0.5}), ('Itzhack', {}),
+                ('ITZHACK', {'version': 1}), ('ItzHack', {'version': 2})]
+
+
+def _canon(method):
+    return 'shepperd' if method == 'default' else method.lower()
+
 ENTRIES = ('DCM.to_quaternion', 'Quaternion(dcm=)', 'QuaternionArray(DCM=)')
 
 LEVEL_TEXT = ("Coq theorems over the regenerated shepperd / chiaverini / hughes / sarabandi (single and batch branches): for every unit "
@@ -73,6 +82,13 @@ def targets():
         ts.append(mk(f'Q_{m}_m', RR, lambda A, v, m=m: A.Quaternion(dcm=_Rm(v), method=m), f"Quaternion(dcm=R, method='{m}')"))
         ts.append(mk(f'QA_{m}_m', RR, lambda A, v, m=m: A.QuaternionArray(DCM=symnp.array([_Rm(v)]), method=m)[0],
                      f"QuaternionArray(DCM=[R], method='{m}')[0]"))
+    # the dispatchers called with NO method argument, and with a mixed-case spelling: must be the shepperd / hughes targets
+    ts.append(mk('DCM_default_m', RR, lambda A, v: A.DCM(_Rm(v)).to_quaternion(), 'DCM(R).to_quaternion()'))
+    ts.append(mk('Q_default_m', RR, lambda A, v: A.Quaternion(dcm=_Rm(v)), 'Quaternion(dcm=R)'))
+    ts.append(mk('QA_default_m', RR, lambda A, v: A.QuaternionArray(DCM=symnp.array([_Rm(v)]))[0], 'QuaternionArray(DCM=[R])[0]'))
+    ts.append(mk('DCM_HUGHES_m', RR, lambda A, v: A.DCM(_Rm(v)).to_quaternion(method='HUGHES'), "DCM(R).to_quaternion('HUGHES')"))
+    ts.append(mk('Q_HUGHES_m', RR, lambda A, v: A.Quaternion(dcm=_Rm(v), method='Hughes'), "Quaternion(dcm=R, method='Hughes')"))
+    ts.append(mk('QA_HUGHES_m', RR, lambda A, v: A.QuaternionArray(DCM=symnp.array([_Rm(v)]), method='HuGhEs')[0], "QuaternionArray(DCM=[R], method='HuGhEs')[0]"))
     # mixed stacks: one generic symbolic row next to FIXED exact half-turn / identity rows, in different positions;
     # the result of the generic row must not depend on its neighbours (theorems *_mixed_* in C02_hughes/C02_chiaverini)
     HALF = [[1.0, 0.0, 0.0], [0.0, -1.0, 0.0], [0.0, 0.0, -1.0]]
@@ -105,6 +121,7 @@ STAGES = [['C02_shepperd.v', 'C02_chiaverini.v', 'C02_hughes.v', 'C02_sarabandi.
 # ------------------------------------------------------------------------------------------
 def _free(method, kw):
     from ahrs.common import orientation as O
+    method = _canon(method)
     f = getattr(O, method)
     if method == 'itzhack':
         return lambda R: f(R, version=kw.get('version', 3))
@@ -115,14 +132,15 @@ def _free(method, kw):
 
 def _entry(entry, method, kw):
     import ahrs
+    mk = {} if method == 'default' else {'method': method}      # default: no method argument at all
     if entry == 'free':
         return _free(method, kw)
     if entry == 'DCM.to_quaternion':
-        return lambda R: ahrs.DCM(R).to_quaternion(method=method, **kw)
+        return lambda R: ahrs.DCM(R).to_quaternion(**mk, **kw)
     if entry == 'Quaternion(dcm=)':
-        return lambda R: np.asarray(ahrs.Quaternion(dcm=R, method=method, **kw))
+        return lambda R: np.asarray(ahrs.Quaternion(dcm=R, **mk, **kw))
     if entry == 'QuaternionArray(DCM=)':
-        return lambda R: np.asarray(ahrs.QuaternionArray(DCM=np.array([R]), method=method, **kw))[0]
+        return lambda R: np.asarray(ahrs.QuaternionArray(DCM=np.array([R]), **mk, **kw))[0]
     raise KeyError(entry)
 
 
@@ -320,8 +338,9 @@ def _loose(method, kw, q=None):
       error about eps/(8|v|), at most ~1e-8 around |v| ~ 1e-8 (angles 1e-9..1e-7)  -> 1e-7;
     - the closed-form trio computes the scalar part as sqrt(1 + trace)/2 = sqrt(4 w^2 + rounding)/2: error about
       eps/(2|w|), i.e. up to ~1e-9 at the edge of the domain |w| = 5e-7  -> + 4e-15/|w|."""
+    method = _canon(method)
     tol = 1e-7 if (method == 'chiaverini' or (method == 'sarabandi' and kw.get('threshold', 0.0) < 0)) else INV_TOL
-    if method in CLOSED and q is not None:
+    if _canon(method) in CLOSED and q is not None:
         tol += 4e-15 / max(abs(float(q[0])), 5e-7)
     return tol
 
@@ -374,20 +393,21 @@ def o_batch(inp):
     qs = np.array(inp['qs'], float)
     method, kw, entry = inp['method'], dict(inp.get('kw', {})), inp['entry']
     Rs = np.array([cm.Rspec(q) for q in qs])
+    mk = {} if method == 'default' else {'method': method}
     A = _as_form(Rs, inp.get('form', 'float64'))
     where = f"{entry}:{method}{_opt(kw)}[N={len(qs)}]"
     if entry == 'QuaternionArray(DCM=)':
-        out = np.asarray(ahrs.QuaternionArray(DCM=A, method=method, **kw))
+        out = np.asarray(ahrs.QuaternionArray(DCM=A, **mk, **kw))
     elif entry == 'QuaternionArray.from_DCM':
         QA = ahrs.QuaternionArray(np.tile([1.0, 0, 0, 0], (2, 1)))
-        out = QA.from_DCM(A, method=method, inplace=False, **kw)
+        out = QA.from_DCM(A, inplace=False, **mk, **kw)
     else:
-        out = getattr(O, method)(A)
+        out = getattr(O, _canon(method))(A)
     out = np.asarray(out)
     if np.iscomplexobj(out) or out.shape != (len(qs), 4):
         return {'tag': f'{where}/shape-or-dtype', 'observed': repr(out)[:300], 'expected': f'real ({len(qs)}, 4)'}
     for i, (q, o) in enumerate(zip(qs, out)):
-        if method in CLOSED and not _in_trio_domain(q):
+        if _canon(method) in CLOSED and not _in_trio_domain(q):
             continue
         r = _check_q(o, q, Rs[i], where, inp.get('region', 'mixed') + '-row', single=(inp.get('form') == 'float32'), loose=_loose(method, kw, q))
         if r is not None:
@@ -399,12 +419,13 @@ def o_batch(inp):
 def _run_stack(entry, method, kw, A):
     import ahrs
     from ahrs.common import orientation as O
+    mk = {} if method == 'default' else {'method': method}
     if entry == 'QuaternionArray(DCM=)':
-        return np.asarray(ahrs.QuaternionArray(DCM=A, method=method, **kw))
+        return np.asarray(ahrs.QuaternionArray(DCM=A, **mk, **kw))
     if entry == 'QuaternionArray.from_DCM':
         QA = ahrs.QuaternionArray(np.tile([1.0, 0, 0, 0], (2, 1)))
-        return np.asarray(QA.from_DCM(A, method=method, inplace=False, **kw))
-    return np.asarray(getattr(O, method)(A))
+        return np.asarray(QA.from_DCM(A, inplace=False, **mk, **kw))
+    return np.asarray(getattr(O, _canon(method))(A))
 
 
 def o_mixed(inp):
@@ -422,7 +443,7 @@ def o_mixed(inp):
         r = call_outcome(lambda R=R: _run_stack(entry, method, kw, np.array([R])))
         ok = r[0] == 'val' and not np.iscomplexobj(r[1]) and np.asarray(r[1]).shape == (1, 4) and not cm.bad(r[1])
         if not ok:
-            if method in CLOSED and not _in_trio_domain(qs[i]):
+            if _canon(method) in CLOSED and not _in_trio_domain(qs[i]):
                 continue            # outside the method's domain and not even finite alone: leave it out of the stack
             return {'tag': f'{where}/{_cls(kinds[i])}-alone-raises-or-nonfinite', 'observed': repr(r)[:200]}
         alone.append(np.asarray(r[1], float)[0]); keep.append(i)
@@ -438,12 +459,31 @@ def o_mixed(inp):
         if not np.array_equal(np.isnan(a), np.isnan(b)) or cm.maxabs(np.nan_to_num(a), np.nan_to_num(b)) > 1e-15:
             return {'tag': f'{where}/{_cls(kinds[i])}-row-differs-from-alone', 'observed': a, 'expected': b,
                     'note': f'row {row} of a stack of kinds {present}'}
-        if method in CLOSED and not _in_trio_domain(qs[i]):
+        if _canon(method) in CLOSED and not _in_trio_domain(qs[i]):
             continue
         r = _check_q(a, qs[i], Rs[i], where, kinds[i] + '-row', loose=_loose(method, kw, qs[i]))
         if r is not None:
             r['note'] = f'row {row} of a stack of kinds {present}'
             return r
+    return None
+
+
+def o_default(inp):
+    """the three dispatchers called WITHOUT a method argument: each inverts the rotation (every region, half-turns and
+    identity included) and they return the same quaternion as each other and as the Shepperd function"""
+    q = np.array(inp['q'], float)
+    R = cm.Rspec(q)
+    region = inp.get('region', 'generic')
+    outs = {}
+    for entry in ENTRIES + ('free',):
+        o = np.asarray(_entry(entry, 'default', {})(R.copy()))
+        r = _check_q(o, q, R, f'{entry}:default', region)
+        if r is not None:
+            return r
+        outs[entry] = o.astype(float)
+    for entry in ENTRIES:
+        if cm.maxabs(outs[entry], outs['free']) > 1e-12:
+            return {'tag': f'{entry}:default/{_cls(region)}-differs-from-shepperd', 'observed': outs[entry], 'expected': outs['free']}
     return None
 
 
@@ -454,7 +494,7 @@ def o_agree(inp):
     entry, region = inp['entry'], _cls(inp.get('region', 'generic'))
     ref = None
     for method, kw in CHOICES + OPT_CHOICES:
-        if method in CLOSED and not _in_trio_domain(q):
+        if _canon(method) in CLOSED and not _in_trio_domain(q):
             continue
         o = np.asarray(_entry(entry, method, kw)(R.copy()))
         if np.iscomplexobj(o) or o.shape != (4,) or cm.bad(o):
@@ -468,7 +508,7 @@ def o_agree(inp):
     return None
 
 
-ORACLES = {'invert': o_invert, 'batch': o_batch, 'agree': o_agree, 'mixed': o_mixed}
+ORACLES = {'invert': o_invert, 'batch': o_batch, 'agree': o_agree, 'mixed': o_mixed, 'default': o_default}
 
 
 def cm_call(f, inp):
@@ -516,7 +556,7 @@ def search(ctx, scale):
     for i, (region, q) in enumerate(qs):
         generic = region.startswith('generic')
         for j, (method, kw) in enumerate(CHOICES):
-            if method in CLOSED and not _in_trio_domain(q):
+            if _canon(method) in CLOSED and not _in_trio_domain(q):
                 continue
             entries = ENTRIES if (not generic or scale > 1) else (ENTRIES[(i + j) % 3],)
             for entry in entries + (('free',) if not generic else ()):
@@ -531,6 +571,15 @@ def search(ctx, scale):
                     inp = {'q': q.tolist(), 'method': method, 'kw': kw, 'entry': entry, 'region': region}
                     ctx.check('invert', inp, cm_call(o_invert, inp),
                               nontrivial_key=(entry, method, kw['threshold'], region, tuple(np.round(q, 6))) if abs(abs(q[0]) - 1) > 1e-15 else None)
+        # spellings accepted through method.lower(), on all three routes
+        for j, (method, kw) in enumerate(CASE_CHOICES):
+            if _canon(method) in CLOSED and not _in_trio_domain(q):
+                continue
+            for entry in (ENTRIES if (not generic or scale > 1) else (ENTRIES[(i + j) % 3],)):
+                inp = {'q': q.tolist(), 'method': method, 'kw': kw, 'entry': entry, 'region': region}
+                ctx.check('invert', inp, cm_call(o_invert, inp), nontrivial_key=(entry, method, _opt(kw), region, tuple(np.round(q, 6))))
+        inp = {'q': q.tolist(), 'region': region, 'entry': 'all-routes', 'method': 'default'}
+        ctx.check('default', inp, cm_call(o_default, inp), nontrivial_key=('default', region, tuple(np.round(q, 6))))
         inp = {'q': q.tolist(), 'entry': ENTRIES[i % 3], 'region': region}
         ctx.check('agree', inp, cm_call(o_agree, inp), nontrivial_key=('agree', region, tuple(np.round(q, 6))))
     # 2. exactly representable rotations handed over as int arrays, lists, float32
@@ -539,7 +588,7 @@ def search(ctx, scale):
         ang = _angle(q)
         region = 'perm-half-turn' if abs(ang - math.pi) < 1e-9 else ('perm-identity' if ang < 1e-9 else 'perm')
         for j, (method, kw) in enumerate(CHOICES + OPT_CHOICES[1::2]):
-            if method in CLOSED and not _in_trio_domain(q):
+            if _canon(method) in CLOSED and not _in_trio_domain(q):
                 continue
             for form in ('int', 'float32'):
                 # (lists and float32 arrays are rejected with a TypeError/AttributeError by DCM() and Quaternion(dcm=):
@@ -553,7 +602,7 @@ def search(ctx, scale):
     for N in (1, 2, 3, 4, 5, 7):
         for k in range(scale):
             for method, kw in CHOICES + OPT_CHOICES[(N + k) % 2::2]:
-                src = dom if method in CLOSED else pool
+                src = dom if _canon(method) in CLOSED else pool
                 idx = ctx.rng.choice(len(src), size=N, replace=False)
                 rows = [src[t] for t in idx]
                 ents = ['QuaternionArray(DCM=)', 'QuaternionArray.from_DCM'] + (['batch-function'] if method in ('chiaverini', 'hughes') else [])
@@ -564,7 +613,7 @@ def search(ctx, scale):
             rows = [perms[(5 * N + t) % len(perms)] for t in range(N)]
             rows = [q for q in rows]
             for method, kw in CHOICES:
-                use = [q for q in rows if not (method in CLOSED and not _in_trio_domain(q))]
+                use = [q for q in rows if not (_canon(method) in CLOSED and not _in_trio_domain(q))]
                 if not use:
                     continue
                 inp = {'qs': [r.tolist() for r in use], 'method': method, 'kw': kw, 'entry': 'QuaternionArray(DCM=)', 'region': f'perm-N{len(use)}', 'form': 'int'}
@@ -588,7 +637,7 @@ def search(ctx, scale):
         for k in range(6 * scale):
             ks = ['generic', names[1 + (k + N) % (len(names) - 1)]] + [names[int(t)] for t in ctx.rng.integers(len(names), size=N - 2)]
             stacks.append([ks[int(t)] for t in ctx.rng.permutation(N)])
-    mixed_choices = CHOICES + OPT_CHOICES[4:6]
+    mixed_choices = CHOICES + OPT_CHOICES[4:6] + [CASE_CHOICES[1], CASE_CHOICES[4]]
     for si, ks in enumerate(stacks):
         rows = [kind_gen[k]() for k in ks]
         for ci, (method, kw) in enumerate(mixed_choices):
